@@ -12,6 +12,7 @@ import (
 	"github.com/attestantio/go-eth2-client/spec/phase0"
 	"github.com/attestantio/vouch/internal/vnd"
 	"github.com/attestantio/vouch/internal/vstub"
+	"github.com/rs/zerolog"
 )
 
 type c07Provider struct {
@@ -22,9 +23,14 @@ type c07Provider struct {
 	calls   int
 }
 
-func (p *c07Provider) BeaconBlockRoot(_ context.Context, _ *api.BeaconBlockRootOpts) (*api.Response[*phase0.Root], error) {
+func (p *c07Provider) BeaconBlockRoot(ctx context.Context, _ *api.BeaconBlockRootOpts) (*api.Response[*phase0.Root], error) {
 	p.calls++
-	vnd.Sleep(p.latency)
+	// like a real HTTP client the node stub gives up when the context it was called with ends
+	select {
+	case <-ctx.Done():
+		return nil, ctx.Err()
+	case <-time.After(p.latency):
+	}
 	if p.fail {
 		return nil, errors.New("mock provider error")
 	}
@@ -37,6 +43,17 @@ type c07Cache struct{}
 
 func (c *c07Cache) BlockRootToSlot(_ context.Context, root phase0.Root) (phase0.Slot, error) {
 	return phase0.Slot(root[1]), nil
+}
+
+// c07New builds the strategy through the package's constructor. The process
+// concurrency is mandatory for New but not read by BeaconBlockRoot; it is set
+// to the number of nodes.
+func c07New(timeout time.Duration, providers map[string]eth2client.BeaconBlockRootProvider) *Service {
+	s, err := New(context.Background(), WithLogLevel(zerolog.Disabled), WithClientMonitor(vstub.ClientMonitor{}),
+		WithTimeout(timeout), WithProcessConcurrency(int64(len(providers))),
+		WithBeaconBlockRootProviders(providers), WithBlockRootToSlotCache(&c07Cache{}))
+	vnd.Assert(err == nil && s != nil, "C07.new.accepted")
+	return s
 }
 
 // VerifC07_RootMajority: the block-root majority strategy with three nodes
@@ -53,8 +70,7 @@ func VerifC07_RootMajority4() { c07RootMajority(4, false) }
 func c07RootMajority(n int, failures bool) {
 	timeout := time.Duration(vnd.I64("timeout"))
 	vnd.Assume(timeout >= 2 && timeout <= 60000) // virtual nanoseconds
-	s := &Service{clientMonitor: vstub.ClientMonitor{}, timeout: timeout, blockRootToSlotCache: &c07Cache{},
-		beaconBlockRootProviders: map[string]eth2client.BeaconBlockRootProvider{}}
+	providers := map[string]eth2client.BeaconBlockRootProvider{}
 	// three candidate roots with symbolic, pairwise different head slots
 	var slots [3]byte
 	for k := range slots {
@@ -89,8 +105,9 @@ func c07RootMajority(n int, failures bool) {
 			p.root = phase0.Root{byte(which[i] + 1), slots[which[i]]}
 		}
 		provs[i] = p
-		s.beaconBlockRootProviders[p.name] = p
+		providers[p.name] = p
 	}
+	s := c07New(timeout, providers) // New rejects an empty provider map, so it runs once the nodes exist
 	start := vnd.NowNs()
 	resp, err := s.BeaconBlockRoot(context.Background(), &api.BeaconBlockRootOpts{Block: "head"})
 	elapsed := time.Duration(vnd.NowNs() - start)
